@@ -66,8 +66,10 @@ def premise_check(b, d, seed, tier):
         "premise_checked_among_programs_run": sum(1 for i, _ in cands if i in ran and res.get(i, "").startswith("TYPED")),
     }
     # the theorems that no longer assume tc_annotations_typed (proofs/RtTheoremsTc.v) have two COMPUTABLE premises
-    # on the parsed program instead: prog_syn_ok (a theorem for parsed programs: proofs/ParseSynOk.v) and rt_syn_ok
-    # (names as the parser + expansion leave them).  Evaluated by the extracted model on every candidate program.
+    # on the AST instead: prog_syn_ok and raw_ok (types and names as the parser + expansion leave them).  Both are
+    # THEOREMS for parsed programs (proofs/ParseSynOk.v, proofs/ParseRaw.v); evaluating them with the extracted model
+    # on every candidate program cross-checks those two proofs against the extraction, and the verdict must agree with
+    # the independent verified checker static_typed_b.
     sres = S.run_tool(b.model, "syn-premises", [(i, "", t) for i, t in cands], timeout=1800)
     scnt = _c.Counter((sres.get(i, "MISSING").split(" ")[0]) for i, _ in cands)
     syn_bad = [(i, t + "\n// syn-premises: " + sres.get(i, "MISSING")) for i, t in cands
@@ -75,16 +77,16 @@ def premise_check(b, d, seed, tier):
     cov.update({
         "premise_syn_ok_on": int(scnt.get("SYN-OK", 0)),
         "premise_syn_failed_on": len(syn_bad),
-        "premise_syn_rule": "prog_syn_ok p && rt_syn_ok p evaluated by the extracted model (syn_premises_text) on every candidate program; SYN-OK on an accepted closed "
-                            "program means static_typed holds of the checker's output by THEOREM (syn_premises_sound: tc_annotations_typed_rt), independently of the "
-                            "checker static_typed_b; the two verdicts are required to agree (TYPED <-> SYN-OK) on every accepted closed program",
+        "premise_syn_rule": "prog_syn_ok p && raw_ok p evaluated by the extracted model (syn_premises_text) on every candidate program; both are theorems for parsed programs "
+                            "(parse_syn_ok, parse_raw_ok), so SYN-OK is expected on EVERY accepted closed program and means static_typed holds of the checker's output by THEOREM "
+                            "(tc_annotations_typed_parsed), independently of the checker static_typed_b; the two verdicts are required to agree (TYPED <-> SYN-OK)",
     })
     not_typed = not_typed + syn_bad
     # the premise topo_reachable: TESTED (not proved) along model runs of every program of the fragment
     typed = [(i, "", t) for i, t in cands if res.get(i, "").startswith("TYPED")]
     seeds = (0, 1) if tier == "quick" else (0, 1, 2, 3)
     confs, runs, bad = 0, 0, []
-    for md in ("async", "sync"):
+    for md in ("async", "sync", "np"):
         for sd in seeds:
             tr = S.run_tool(b.model, "topo-%s-%d" % (md, sd), typed, timeout=1800)
             for i, _, t in typed:
@@ -99,7 +101,7 @@ def premise_check(b, d, seed, tier):
         "premise_topo_tested_configurations": confs,
         "premise_topo_failed": len(bad),
         "premise_topo_rule": "the executable test topo_code of proofs/TopoCheck.v (unique provider object, unique client object, no dangling client, closed channels unused, "
-                             "rank certificate for acyclicity) evaluated on EVERY configuration of model runs (async and sync, schedules %s) of every program on which the typing premise was checked; "
+                             "rank certificate for acyclicity) evaluated on EVERY configuration of model runs (async, sync and non-polarized, schedules %s) of every program on which the typing premise was checked; "
                              "a test, not a proof: topo_reachable remains a premise of the theorems" % (list(seeds),),
     })
     not_typed = not_typed + [(i, t + "\n// " + why) for i, t, why in bad]
